@@ -289,7 +289,7 @@ func ntpCallArgRoot(r *ana.Result, fn *ssa.Function, callee string, idx int, pic
 }
 
 func checkC05(p *ana.Prog, r *ana.Result) {
-	r.Explain("C05 (structural necessary condition): in both NTP client receive functions every return that can carry a nil error is reachable from the function entry only through the datagram read, and from that read only through the accept edge of every acceptance test (source address, NTP decode, NTS decode+verify when NTS is on, origin echo, response metadata, response timestamps; over SCION additionally layer decode, L4 type, length, source/destination IA+host and the SPAO MAC when a key is held). Queries are path searches on the SSA CFG with constant-phi and condition-class path sensitivity. ValidateResponseMetadata is decided exactly over all 256x256 (LVM, Stratum) byte pairs by a truth-table abstract interpretation (E-TABLE8). nts.ProcessResponse: success is dominated by the unique-id comparison and authenticate()==nil, and StoreCookie happens only after both.")
+	r.Explain("C05 (structural necessary condition): in both NTP client receive functions every return that can carry a nil error is reachable from the function entry only through the datagram read, and from that read only through the accept edge of every acceptance test (source address, NTP decode, NTS decode+verify when NTS is on, origin echo, response metadata, response timestamps; over SCION additionally layer decode, L4 type, length, source/destination IA+host and the SPAO MAC when a key is held). Queries are path searches on the SSA CFG with constant-phi and condition-class path sensitivity. ValidateResponseMetadata is decided exactly over all 256x256 (LVM, Stratum) byte pairs by a truth-table abstract interpretation (E-TABLE8). nts.ProcessResponse: success is dominated by the unique-id comparison and authenticate()==nil, and StoreCookie happens only after both. NTS verification: authenticate returns nil only through NewAEAD == nil and Open == nil of the packet's own nonce and ciphertext over b[:Auth.pos] (rule shared with C10).")
 	r.Undecided("cryptographic strength of AEAD/CMAC; bytes.Equal/ConstantTimeCompare semantics (trusted); value-level correctness of compareAddrs/compareIPs beyond being called on the datagram's source and the queried address")
 	c05Client(p, r, "(*IPClient).measureClockOffsetIP", false)
 	c05Client(p, r, "(*SCIONClient).measureClockOffsetSCION", true)
